@@ -229,7 +229,7 @@ def special_programs():
             out.append(body + 'x' * pad + ' 형... 항.')
     # size ladders (hv/scale.py) through the real binary
     from . import scale
-    out += [scale.deep_program(1, 65, 65), scale.many_labels(65, 7), scale.straight(300), scale.loop_program(150) + ' 항.']
+    out += [scale.deep_program(1, 65, 65), scale.many_labels(65, 7), scale.straight(300), scale.loop_program(180) + ' 항.']
     # beyond the specified range: only "no panic" is checked
     out.append('%s 항.' % big(65536, 65536))
     return out
@@ -258,7 +258,45 @@ def special_task(texts):
     return st
 
 
+def bad_stdins(tier):
+    """an undecodable byte sequence after k characters of valid text of each UTF-8 length, k across 16/32/64 bytes; on the
+    first line and on a later one"""
+    ks = list(range(1, 24)) + [31, 32, 33, 63, 64, 65] + ([] if tier == 'quick' else [127, 128, 129, 255, 256, 257, 8191, 8192, 8193])
+    out = []
+    for ch in ('a', '\u00e9', '\uac00', '\U0001F600'):
+        for k in ks:
+            for bad in (b'\xff', b'\xea\xb0', b'\xc0\xaf'):
+                good = (ch * k).encode('utf-8')
+                out.append(good + bad + b'\n')
+                if k in (5, 6, 16, 17, 22, 33, 65):
+                    out.append(b'ok\n' + good + bad)
+                    out.append(good + bad + b'z\nmore\n')
+    return out
+
+
+def stdin_task(stdins):
+    from .eng_unicopy import CAT
+    st = Stats()
+    d = os.path.join(WORK, 'cli-in-%d' % os.getpid())
+    os.makedirs(d, exist_ok=True)
+    for k, text in enumerate(('흑 항', '흑 항... 흑... 항.', CAT)):
+        path = os.path.join(d, 'r%d.hyeong' % k)
+        with open(path, 'w', encoding='utf-8') as f:
+            f.write(text)
+        for sin in stdins:
+            exp = predict(text, sin)
+            for lv in (0, 1, 2):
+                rc, out, err = run_bin(['run', '-O%d' % lv, '--color', 'never', path], sin, d)
+                st.inc('execs')
+                judge(st, {'kind': 'stdin', 'prog': text, 'stdin_hex': sin.hex() if len(sin) < 400 else sin[:20].hex() + '..[%d bytes]..' % len(sin) + sin[-8:].hex(),
+                           'cmd': 'run -O%d' % lv}, rc, out, err, exp)
+    shutil.rmtree(d, ignore_errors=True)
+    return st
+
+
 def _task(t):
+    if t[0] == 'stdin':
+        return stdin_task(t[1])
     if t[0] == 'content':
         return content_task(t[1], t[2])
     if t[0] == 'names':
@@ -279,6 +317,9 @@ def run_c13(tier):
     sp = special_programs()
     for i in range(0, len(sp), 6):
         tasks.append(('special', sp[i:i + 6]))
+    bs = bad_stdins(tier)
+    for i in range(0, len(bs), 25):
+        tasks.append(('stdin', bs[i:i + 25]))
     step = 100 if tier == 'quick' else 1000
     for i in range(0, len(contents), step):
         tasks.append(('content', contents[i:i + step], i))
@@ -293,7 +334,7 @@ def run_c13(tier):
                 'valid programs (status 0, requested status, or status 1 with an [error] diagnostic)',
         'scope': {'fragments': [f.hex() for f in FRAGS], 'max_fragments': n, 'contents': len(contents),
                   'stdin_variants_for_reading_programs': [s.hex() if len(s) < 50 else '64KiB line' for s in STDINS],
-                  'special_programs': len(sp), 'file_name_cases': 12, 'step_budget': BUDGET},
+                  'special_programs': len(sp), 'undecodable_stdin_ladder': len(bs), 'file_name_cases': 12, 'step_budget': BUDGET},
         'distinct_outcomes': sorted(st.sets.get('outcome', ())),
         'samples': [{'content_hex': (FRAGS[2] + FRAGS[1] + FRAGS[9]).hex(), 'cmd': 'run -O2'},
                     {'name': 'd.hyeong (a directory)', 'cmd': 'check'}, {'prog': 'write 0xD800 to stderr after a read', 'cmd': 'run -O1'}],
@@ -308,6 +349,10 @@ def replay(case):
         st = content_task([data], 'replay')
     elif case['kind'] == 'name':
         st = names_task()
+    elif case['kind'] == 'stdin':
+        if '..[' in case['stdin_hex']:
+            return 'see: standard input shortened in the record', ''
+        st = stdin_task([bytes.fromhex(case['stdin_hex'])])
     else:
         if '…[' in case['prog']:
             return 'see: program shortened in the record', ''
